@@ -26,6 +26,27 @@ var Check = core.Check{
 	Shards: 16,
 	Run:    run,
 	Replay: replay,
+	Parent: parent,
+}
+
+// A level is reported as completed only when every shard finished its part:
+// shards count "section_done:<name>", the parent compares with the number of shards.
+var sectionNames []string
+
+func sectionDone(r *core.Run, name string) {
+	r.Count("section_done:"+name, 1)
+}
+
+func parent(r *core.Run) {
+	n := r.Counter("shards_run")
+	if n == 0 {
+		return
+	}
+	for _, name := range plannedSections(r) {
+		if r.Counter("section_done:"+name) == n {
+			r.Section(name)
+		}
+	}
 }
 
 type Case struct {
@@ -100,7 +121,7 @@ func run(r *core.Run) {
 	r.Rule("a program is non-trivial when gojq.Parse accepts it and it has at least one construct (operator, keyword form, bracket, suffix, directive) or belongs to the capture set; counted by distinct program text")
 	r.Assume("size of a program = number of grammar constructs applied (operators, keyword forms, brackets, suffixes, directives); leaves are atoms (literal snippets) of size 0. Atoms per leaf: size 0 and 1 the full alphabet (size 1: every pair of holes ranges over the full alphabet while the other holes hold one atom); size 2: two (thorough also four) atoms per hole; size >= 3: one atom per hole (the innermost bound name if any, else literals numbered in text order). The level names in sections_completed say which set was enumerated completely")
 	r.Assume("semantic oracle: programs are built from deterministic, side effect free constructs (no calls of input/inputs/env/now/halt/display); reference = direct evaluation of the unmodified program text by an fq interpreter session (same builtins, no rewrite) on the same input values; values are compared as canonical JSON")
-	r.Assume("a command line run that does not return within 40 s is inconclusive (counted, never an alarm)")
+	r.Assume("a command line run that does not finish within 60 s (normal cost 50 ms) is inconclusive (counted, never an alarm)")
 	t0 := time.Now()
 	g := genFor(setFull)
 	r.Extra("constructs", len(g.prods))
@@ -108,25 +129,61 @@ func run(r *core.Run) {
 	r.Extra("pattern_atoms", len(patternAtoms))
 	r.Extra("binary_operators", len(binOps))
 
-	type phase struct {
-		sec string
-		fn  func() bool
+	r.Count("shards_run", 1)
+	var st *semState
+	phases := plan(r, &st)
+	for _, ph := range phases {
+		if !only(ph.sec) {
+			continue
+		}
+		if !ph.fn() {
+			break
+		}
+		r.Logf("phase %s done at %v", ph.sec, time.Since(t0).Round(time.Second))
 	}
+	if st != nil {
+		st.close()
+	}
+}
+
+type phase struct {
+	sec string
+	fn  func() bool
+}
+
+func plannedSections(r *core.Run) []string {
+	var st *semState
+	plan(r, &st)
+	return sectionNames
+}
+
+// plan lists the phases of a tier in execution order (most specific oracles
+// first, the bulk syntactic level last) and records the section names.
+func plan(r *core.Run, stp **semState) []phase {
 	var phases []phase
+	var names []string
 	syn := func(ls ...level) phase {
+		for _, l := range ls {
+			names = append(names, "syntactic:"+l.name)
+		}
 		return phase{"syn", func() bool { return runSyntactic(r, ls) }}
 	}
 	fqp := func(ls ...level) phase {
+		for _, l := range ls {
+			names = append(names, "fqpath:"+l.name)
+		}
 		return phase{"fqpath", func() bool { return runFqPath(r, ls) }}
 	}
-	var st *semState
 	sem := func(ls ...semLevel) phase {
+		for _, l := range ls {
+			names = append(names, "semantic:"+l.name+":"+strings.Join(l.modes, "+"))
+		}
 		return phase{"sem", func() bool {
-			if st == nil {
-				st = newSemState()
-				st.r = r
+			if *stp == nil {
+				*stp = newSemState()
+				(*stp).r = r
 			}
-			return runSemantic(r, st, ls)
+			return runSemantic(r, *stp, ls)
 		}}
 	}
 	all := semModes
@@ -169,18 +226,8 @@ func run(r *core.Run) {
 			syn(l4core),
 		}
 	}
-	for _, ph := range phases {
-		if !only(ph.sec) {
-			continue
-		}
-		if !ph.fn() {
-			break
-		}
-		r.Logf("phase %s done at %v", ph.sec, time.Since(t0).Round(time.Second))
-	}
-	if st != nil {
-		st.close()
-	}
+	sectionNames = names
+	return phases
 }
 
 // rootCause gives all symptoms of two marginal, separately recorded defects one
@@ -272,9 +319,7 @@ func runSyntactic(r *core.Run, levels []level) bool {
 			r.NotExhaustive("deadline: syntactic level " + l.name + " not finished")
 			return false
 		}
-		if r.ShardIdx == 0 {
-			r.Section("syntactic:" + l.name)
-		}
+		sectionDone(r, "syntactic:"+l.name)
 		r.Logf("syntactic %s: candidates=%d mine=%d accepted=%d rejected=%d", l.name, cand, mine, acc, rej)
 	}
 	return true
